@@ -438,4 +438,41 @@ def orthogonal_frame(repo: Repo) -> RuleRun:
 
 orthogonal_frame.rule_id = "C18.ORTHOGONAL-FRAME"
 
-RULES = [scan, corner_table, frame_signs, triangle_partition, affine_kinds, stale_alias, no_stale_lazy_cache, orthogonal_frame]
+def side_priority(repo: Repo) -> RuleRun:
+    """'numbered so that the front side faces the observer, the top side faces the ceiling point': reorient() serves the sides greedily in
+    the order of the dictionary _get_normals returns - the first key takes the two best-aligned hull triangles, later ones the best of
+    what is left. The observer's axis (front / back) must therefore be served before the ceiling's (top / bottom), and that before the
+    derived left / right axis: for an oblique viewpoint another order gives the front side the leftovers. Abstract run of _get_normals."""
+    from ..peval import Evaluator, NotEvaluable, Obj, Raised
+
+    r = RuleRun(PROP, "C18.SIDE-PRIORITY", floor=1, what="_get_normals lists the observer's axis (front/back) before the ceiling's (top/bottom) before the derived one (left/right): the greedy side assignment serves them in that order")
+    fn = repo.func("modify.reorient.viewpoint.ViewpointReorienter._get_normals")
+    this = Obj("reorienter", cls=fn.cls)
+    this.set("observer", Sym("observer"))
+    this.set("ceiling", Sym("ceiling"))
+    ev = Evaluator(repo=repo, module=fn.module, call_hook=lambda ev_, call, name: Sym("geom") if (name or "").split(".")[0] in ("np", "numpy", "f") else NO_MATCH)
+    ev.opaque_arith = True
+    try:
+        res = ev.call_funcinfo(fn, [this, Sym("center")])
+    except (Raised, NotEvaluable) as err:
+        raise AnalysisError(f"_get_normals not evaluable: {err}") from err
+    r.require(isinstance(res, dict) and set(res) == {"front", "back", "top", "bottom", "left", "right"}, f"_get_normals does not return the six sides: {res!r}")
+    keys = list(res)
+    first = {axis: min(keys.index(k) for k in pair) for axis, pair in (("observer", ("front", "back")), ("ceiling", ("top", "bottom")), ("derived", ("left", "right")))}
+    ok = first["observer"] < first["ceiling"] < first["derived"] and keys[0] == "front"
+    r.check(ok, fn, f"sides served in the order {keys}", f"_get_normals returns the sides in the order {keys}: the greedy assignment in reorient() gives '{keys[0]}' the first pick of the best-aligned triangles; for a viewpoint some 40 degrees off the best side's normal the front side is then built from what is left and no longer faces the observer", fn.node, key="order")
+    return r
+
+
+side_priority.rule_id = "C18.SIDE-PRIORITY"
+
+def live_queries(repo: Repo) -> RuleRun:
+    """'return exactly those mesh vertices that lie within the given sphere ...' - where the vertices are NOW, and every time the question is asked: the finders keep no snapshot of positions and hand out no container of their own."""
+    from ..memo import keyed_cache_rule
+
+    return keyed_cache_rule(repo, PROP, "C18.LIVE-QUERIES", ("modify.find",))
+
+
+live_queries.rule_id = "C18.LIVE-QUERIES"
+
+RULES = [scan, corner_table, frame_signs, triangle_partition, affine_kinds, stale_alias, no_stale_lazy_cache, orthogonal_frame, side_priority, live_queries]
